@@ -33,9 +33,9 @@ TheRefs == IF Mode = "methods" THEN SmallRefs ELSE Refs
 TheCodes == IF Mode = "methods" THEN RedirectCodes \cup {200, 404} ELSE {302, 200}
 
 Init == \E c \in Cfgs : InitWith(c)
-Env == \E code \in TheCodes, loc \in TheRefs : Respond(code, loc)
+Env == hops < Depth /\ \E code \in TheCodes, loc \in TheRefs : Respond(code, loc)     \* at most Depth answered redirects
 Spec == Init /\ [][Next \/ Env]_vars
-Bound == TLCGet("level") <= 2 * Depth + 2
+Bound == TLCGet("level") <= 2 * Depth + 4
 View == <<cfg, phase, cur, prev, hops, resp, last>>
 (* Resolve agrees with itself through re-serialisation: resolving the absolute form of a target gives the target *)
 AsRef(u) == [kind |-> "abs", scheme |-> u.scheme, host |-> u.host, port |-> u.port, abs |-> u.abs, segs |-> u.segs,
